@@ -152,7 +152,8 @@ def wfc : List Instr → List (LockId × Bool) → Bool
   | .unlock l :: rest, held => held.contains (l, true) && wfc rest (held.erase (l, true))
   | .runlock l :: rest, held => held.contains (l, false) && wfc rest (held.erase (l, false))
   | .eff a :: rest, held =>
-    (if a.isWrite then held.contains (.map, true) else (held.contains (.map, true) || held.contains (.map, false)))
+    (!a.touchesMap ||
+      (if a.isWrite then held.contains (.map, true) else (held.contains (.map, true) || held.contains (.map, false))))
       && wfc rest held
   | .swapClosed :: rest, held => wfc rest held
 
@@ -179,7 +180,7 @@ theorem wf_compile (op : COp) : wfc (compile op) [] = true := by
     apply wf_commitWrites
     · simp [rank]
     · simp [wfc]
-  | _ => simp [compile, readCode, writeCode, iterCode, wfc, rank, DOp.isWrite]
+  | _ => simp [compile, readCode, writeCode, iterCode, flagCode, batchCode, wfc, rank, DOp.isWrite, DOp.touchesMap]
 
 /-! ## where `check` and `swapClosed` occur -/
 
@@ -201,8 +202,9 @@ theorem check_only_first (op : COp) (rest : List Instr) (h : compile op = .check
     subst h
     simp [check_not_mem_commitWrites]
   | close => simp [compile] at h
+  | batchOp b => simp [compile, batchCode] at h
   | _ =>
-    simp only [compile, readCode, writeCode, iterCode, List.cons.injEq, true_and] at h
+    simp only [compile, readCode, writeCode, iterCode, flagCode, List.cons.injEq, true_and] at h
     subst h; simp
 
 /-- Only `Close` swaps the flag, and that is all it does. -/
@@ -210,7 +212,7 @@ theorem swap_only_close (op : COp) (h : Instr.swapClosed ∈ compile op) : op = 
   cases op with
   | commit b v r ws => simp [compile, swap_not_mem_commitWrites] at h
   | close => rfl
-  | _ => simp [compile, readCode, writeCode, iterCode] at h
+  | _ => simp [compile, readCode, writeCode, iterCode, flagCode, batchCode] at h
 
 /-! ## thread-local invariant -/
 
@@ -247,8 +249,12 @@ theorem fresh_tail {t : Thread} (h : TInv t) (i : Instr) (rest : List Instr) (hc
       have : i = .check := by simp [compile] at hcomp; exact hcomp.1
       subst this
       exact check_only_first _ _ hcomp.symm hm
+    | batchOp b =>
+      simp only [compile, batchCode, List.cons.injEq] at hcomp
+      rw [hcomp.2] at hm
+      simp at hm
     | _ =>
-      have : i = .check := by simp [compile, readCode, writeCode, iterCode] at hcomp; exact hcomp.1
+      have : i = .check := by simp [compile, readCode, writeCode, iterCode, flagCode] at hcomp; exact hcomp.1
       subst this
       exact check_only_first _ _ hcomp.symm hm
   · have hop := swap_only_close op (by rw [← hcomp]; exact List.mem_cons_of_mem _ hm)
